@@ -1184,6 +1184,11 @@ def _oracle(ctx: Ctx, deep: bool = False):
                "ratio": [0.2, 0.4, 0.6], "mask": "multi"}
         ctx.count(("oracle-list", tuple(flag_list(f)), seed), True, bucket="oracle/list-valued/" + ("ssl-" + SPLIT[f["split"]] if f["ssl"] else "sup"))
         yield from _guarded(check_config(cfg, _gauss_sample(seed, nc, 0, h, w, 0, False)), {"op": "pipeline", **cfg})
+    # (o') the standing determinism check across processes: one second interpreter per run, a handful of configurations
+    xc = xproc_configs(rng)
+    for c in xc:
+        ctx.count(("xproc", tuple(flag_list(c["flags"])), c["seed"], c["name"]), True, bucket="oracle/cross-process")
+    yield from _guarded(check_cross_process(xc), {"op": "cross_process", "configs": len(xc)})
     # (viii) call histories on one transform object (no state kept across calls), raw input left untouched, input forms
     for i in range(ctx.budget(6, 60) * (3 if deep else 1)):
         f = {**random_flags(rng, valid_only=True), "delete_kspace": rng.choice([0, 1])}
@@ -2072,6 +2077,88 @@ def check_coil_selection(cfg):
                          (7.48340206185567, 0.37, 3.0), "PadKspace with un-centred operators")
 
 
+XPROC_KEYS = ("sampling_mask", "acs_mask", "kspace", "masked_kspace", "input_sampling_mask", "target_sampling_mask", "target", "body_coil_image")
+
+
+def _digest(out: dict) -> dict:
+    import hashlib
+    d = {}
+    for kk, v in out.items():
+        kk = str.__str__(kk)
+        if kk in XPROC_KEYS and isinstance(v, torch.Tensor):
+            d[kk] = [list(v.shape), hashlib.sha1(v.contiguous().numpy().tobytes()).hexdigest()[:16]]
+    return d
+
+
+def _xproc_run(cfg) -> dict:
+    """one seeded pipeline run of a recorded configuration; used in-process and by the worker interpreter"""
+    shape = cfg["shape"]
+    nc, ns = shape[0], (shape[1] if len(shape) == 4 else 0)
+    k = _gauss_sample(cfg["seed"], nc, ns, shape[-2], shape[-1], 0, False)
+    three_d = bool(ns)
+    rs = (((ns,) if three_d else ()) + tuple(cfg["crop_shape"])) if cfg["flags"]["crop"] == 2 else None
+    out = run_real(_build_for(cfg), raw_sample(k, filename=cfg["name"], slice_no=cfg.get("slice", 0), crop_shape=rs))
+    return _digest(out)
+
+
+def _xproc_worker():
+    """entry point of the second interpreter: configurations as JSON on stdin, digests as JSON on stdout"""
+    import json
+    import sys
+    cfgs = json.load(sys.stdin)
+    res = []
+    for c in cfgs:
+        try:
+            res.append(_xproc_run(c))
+        except Exception as e:  # noqa: BLE001
+            res.append({"error": f"{type(e).__name__}: {e}"})
+    sys.stdout.write("XPROC" + json.dumps(res) + "\n")
+
+
+def check_cross_process(cfgs: list[dict]):
+    """With seeding, the masks / crops / splits of a sample are a function of the file name (and slice number): the same
+    sample through the same configuration in ANOTHER interpreter — another `PYTHONHASHSEED`, as in spawned data-loader workers,
+    other ranks, a resumed run — must give bit-identical outputs."""
+    import json
+    import os
+    import pathlib
+    import subprocess
+    import sys
+    here = [_xproc_run(c) for c in cfgs]
+    env = dict(os.environ)
+    env["PYTHONHASHSEED"] = "2" if os.environ.get("PYTHONHASHSEED") == "1" else "1"
+    harness = str(pathlib.Path(__file__).resolve().parent.parent)
+    code = f"import sys; sys.path.insert(0, {harness!r}); import boot; from props import c08; c08._xproc_worker()"
+    r = subprocess.run([sys.executable, "-c", code], input=json.dumps(cfgs), capture_output=True, text=True, env=env, timeout=600)
+    line = next((ln for ln in r.stdout.splitlines() if ln.startswith("XPROC")), None)
+    if r.returncode != 0 or line is None:
+        from core import ToolFailure
+        raise ToolFailure("cross-process worker failed: " + (r.stdout + r.stderr)[-1500:])
+    there = json.loads(line[5:])
+    for c, a, b in zip(cfgs, here, there):
+        rep = {"op": "cross_process", **c}
+        if "error" in b:
+            yield Violation("pipeline-raises", f"the transform raises in a second interpreter: {b['error']}", {**rep, "observed": b["error"]})
+            continue
+        for kk in sorted(set(a) | set(b)):
+            if a.get(kk) != b.get(kk):
+                yield Violation("not-deterministic-across-processes-" + kk,
+                                f"`{kk}` of the same sample / file name differs between two interpreters (PYTHONHASHSEED) although use_seed=True: "
+                                f"{a.get(kk)} vs {b.get(kk)}", {**rep, "key": kk})
+
+
+def xproc_configs(rng) -> list[dict]:
+    base = {"centered": True, "percentile": 0.9, "pad_to": 4}
+    out = []
+    for extra in ({}, {"crop": 1, "image_center_crop": 0}, {"body_coil": 1, "delete_acs": 0}, {"ssl": 1, "split": 1, "delete_kspace": 0},
+                  {"ssl": 1, "split": 0, "crop": 1, "image_center_crop": 0}):
+        f = {**default_flags(), "delete_kspace": 0, **extra}
+        out.append({**base, "flags": f, "seed": rng.randrange(2 ** 31), "shape": [rng.choice([1, 2]), rng.choice([10, 12]), rng.choice([16, 20])],
+                    "crop_shape": [rng.randint(5, 8), rng.randint(8, 12)], "name": "xproc_%d.h5" % rng.randrange(1000), "slice": rng.randrange(5),
+                    "ratio": [0.3, 0.5] if extra.get("ssl") else 0.4})
+    return out
+
+
 def check_given(cfg):
     """The sample already contains (A) `sampling_mask` + `acs_mask` (no mask function) or (B) a `sensitivity_map`:
     scale-equivariance and self-consistency on the real pipeline."""
@@ -2148,6 +2235,9 @@ def replay(rep: dict) -> bool:
         if op == "defaults":
             cfg = {kk: rep[kk] for kk in ("family", "seed", "shape", "name")}
             return any(True for _ in check_defaults(cfg))
+        if op == "cross_process":
+            cfg = {kk: rep[kk] for kk in ("flags", "seed", "shape", "crop_shape", "name", "slice", "ratio", "centered", "percentile", "pad_to") if kk in rep}
+            return any(True for _ in check_cross_process([cfg]))
         if op == "coil_selection":
             cfg = {kk: rep[kk] for kk in ("case", "seed", "shape", "pad_shape", "scaling_key", "coils") if kk in rep}
             return any(True for _ in check_coil_selection(cfg))
